@@ -341,7 +341,12 @@ func (t *StreamUnderlay) onOpenSessionResponse(seg *segment) error {
 	sessionID := seg.metadata.(*sessionStruct).sessionID
 	session, found := t.sessionMap.Load(sessionID)
 	if !found {
-		return fmt.Errorf("session ID %d is not found", sessionID)
+		// The session has been closed and removed before the response
+		// arrived. This must not disturb the other sessions of the underlay.
+		if log.IsLevelEnabled(log.TraceLevel) {
+			log.Tracef("%v received open session response, but session ID %d is not found", t, sessionID)
+		}
+		return nil
 	}
 	if !t.deliverSegmentToSession(session.(*Session), seg) && log.IsLevelEnabled(log.TraceLevel) {
 		log.Tracef("%v ignored openSessionResponse segment for closed session %d", t, sessionID)
